@@ -55,3 +55,4 @@ run "56ab4b7 symlink cycle" C08 -- 56ab4b7
 run "ed4068c structural deepClone" C01 C12 -- ed4068c
 run "9344719 flags rejects arguments" C14 -- 9344719
 run "a127cb7 list-form merge chains" C10 -- a127cb7
+run "bf22a46 environment entries" C08 -- bf22a46
